@@ -111,8 +111,14 @@ Holds(p, S, c) ==
          S.sched[c.task] => IF c.kind = "strict" THEN S.e[c.task] < c.value
                                                  ELSE S.e[c.task] <= c.value
     [] c.cls = "TaskPrecedence" ->
-         (S.sched[c.before] /\ S.sched[c.after])
-            => Rel(c.kind, S.e[c.before] + c.offset, S.s[c.after])
+         \* either side may be a task group (before_g / after_g: index of the group constraint): the whole
+         \* group, i.e. every scheduled member, lies before / after
+         LET bs == IF "before_g" \in DOMAIN c /\ c.before_g > 0 THEN SchedOf(S, SeqToSet(p.cons[c.before_g].tasks))
+                   ELSE IF S.sched[c.before] THEN {c.before} ELSE {}
+             as == IF "after_g" \in DOMAIN c /\ c.after_g > 0 THEN SchedOf(S, SeqToSet(p.cons[c.after_g].tasks))
+                   ELSE IF S.sched[c.after] THEN {c.after} ELSE {}
+         IN  (bs # {} /\ as # {})
+               => Rel(c.kind, MaxOf({ S.e[t] : t \in bs }) + c.offset, MinOf({ S.s[t] : t \in as }))
     [] c.cls = "TasksStartSynced" ->
          (S.sched[c.t1] /\ S.sched[c.t2]) => S.s[c.t1] = S.s[c.t2]
     [] c.cls = "TasksEndSynced" ->
